@@ -148,6 +148,12 @@ class NumEvalError(Exception):
     pass
 
 
+def to_mp(x):
+    if isinstance(x, Fraction):
+        return mpmath.mpf(x.numerator) / mpmath.mpf(x.denominator)
+    return mpmath.mpf(x)
+
+
 def _round_half_even(x, n):
     q = mpmath.mpf(10) ** n
     y = x * q
@@ -191,7 +197,7 @@ def _neval(e, env, cache):
             if name == 'PI':
                 return mpmath.pi
             if name in env:
-                return mpmath.mpf(env[name]) if not isinstance(env[name], (bool,)) else env[name]
+                return env[name] if isinstance(env[name], bool) else to_mp(env[name])
             raise NumEvalError('free variable %s' % name)
         args = [neval(c, env, cache) for c in ch]
         if name in env and callable(env[name]):
